@@ -370,6 +370,7 @@ class EscapeAnalysis:
         self.assert_classifier = assert_classifier  # (func, assert node) -> "input" | "ignore"
         self.summaries = {}  # qualname -> {key: Item}
         self.unresolved = {}  # qualname -> list of (lineno, text)
+        self.untabled_externals = {}  # external callee that is in neither raiser table -> first call site
         self.call_sites = 0
         self.resolved_sites = 0
         self._current = None
@@ -525,6 +526,8 @@ class EscapeAnalysis:
                 classes = ()
                 if kind == "ext":
                     classes = raiser_table.lookup_external(name, call)
+                    if name not in raiser_table.EXTERNAL and name not in raiser_table.NO_RAISE and func.module.name != "cutplace.gui":
+                        self.untabled_externals.setdefault(name, "%s:%d" % (func.module.relpath, call.lineno))
                 elif kind == "method":
                     classes = raiser_table.lookup_method(name, call, func)
                 for cls_name in classes:
